@@ -300,8 +300,10 @@ def divide_split(state):
         Exception: if ``state`` is of an unrecognized type.
     """
     if isinstance(state, (int, np.integer)):
-        remainder = state % 2
-        half = int(state / 2)
+        # integer arithmetic keeps the halves exact for negative and
+        # for very large values (state / 2 goes through a float)
+        half = int(state) // 2
+        remainder = int(state) - 2 * half
         if random.choice([True, False]):
             return [half + remainder, half]
         else:
